@@ -125,7 +125,14 @@ func MarshalInputToOptions(input protoiface.MarshalInput) proto.MarshalOptions {
 }
 
 func UnmarshalInputToOptions(input protoiface.UnmarshalInput) proto.UnmarshalOptions {
+	// every nested level gets a recursion budget one smaller than its parent's. proto.UnmarshalOptions re-defaults a
+	// zero limit, so an exhausted budget is handed on as a negative one, which the callee rejects.
+	limit := input.Depth - 1
+	if limit == 0 {
+		limit = -1
+	}
 	return proto.UnmarshalOptions{
+		RecursionLimit:    limit,
 		NoUnkeyedLiterals: input.NoUnkeyedLiterals,
 		Merge:             true, // nested decodes merge into the existing sub-message, as the wire format requires for repeated occurrences
 		AllowPartial:      true, // defaults to true as the required fields check is done after the unmarshalling
@@ -137,5 +144,6 @@ func UnmarshalInputToOptions(input protoiface.UnmarshalInput) proto.UnmarshalOpt
 var (
 	ErrInvalidLength        = fmt.Errorf("proto: negative length found during unmarshaling")
 	ErrIntOverflow          = fmt.Errorf("proto: integer overflow")
+	ErrRecursionDepth       = fmt.Errorf("proto: exceeded max recursion depth")
 	ErrUnexpectedEndOfGroup = fmt.Errorf("proto: unexpected end of group")
 )
